@@ -55,15 +55,37 @@ def rdAt (bs : List Byte) (pos k : Nat) : Option Nat :=
 def sliceAt (bs : List Byte) (pos k : Nat) : Option (List Byte) :=
   if pos + k ≤ bs.length then some ((bs.drop pos).take k) else none
 
-/-- `ByteCodeHeader::read_from` on the first 129 bytes -/
+/-- `ByteCodeHeader::read_from`: the fields one after the other -/
+def readHeaderSeq (bs : List Byte) : Option (Header × List Byte) :=
+  if bs.length < 4 then none else do
+  let magic := bs.take 4
+  let (version, r) ← readLE 1 (bs.drop 4)
+  let (mechVer, r) ← readLE 2 r
+  let (flags, r) ← readLE 2 r
+  let (regCount, r) ← readLE 4 r
+  let (instrCount, r) ← readLE 4 r
+  let (featureCount, r) ← readLE 4 r
+  let (featureOff, r) ← readLE 8 r
+  let (typesCount, r) ← readLE 4 r
+  let (typesOff, r) ← readLE 8 r
+  let (constCount, r) ← readLE 4 r
+  let (constTblOff, r) ← readLE 8 r
+  let (constTblLen, r) ← readLE 8 r
+  let (constBlobOff, r) ← readLE 8 r
+  let (constBlobLen, r) ← readLE 8 r
+  let (symbolsLen, r) ← readLE 8 r
+  let (symbolsOff, r) ← readLE 8 r
+  let (instrOff, r) ← readLE 8 r
+  let (instrLen, r) ← readLE 8 r
+  let (dictOff, r) ← readLE 8 r
+  let (dictLen, r) ← readLE 8 r
+  let (reserved, r) ← readLE 4 r
+  some ({ magic, version, mechVer, flags, regCount, instrCount, featureCount, featureOff, typesCount, typesOff, constCount,
+          constTblOff, constTblLen, constBlobOff, constBlobLen, symbolsLen, symbolsOff, instrOff, instrLen, dictOff, dictLen, reserved }, r)
+
+/-- the header of a file: its first 129 bytes -/
 def readHeader (bs : List Byte) : Option Header :=
-  if bs.length < HEADER_SIZE then none else
-  let n (pos k : Nat) : Nat := unle ((bs.drop pos).take k)
-  some { magic := bs.take 4, version := n 4 1, mechVer := n 5 2, flags := n 7 2, regCount := n 9 4, instrCount := n 13 4,
-         featureCount := n 17 4, featureOff := n 21 8, typesCount := n 29 4, typesOff := n 33 8, constCount := n 41 4,
-         constTblOff := n 45 8, constTblLen := n 53 8, constBlobOff := n 61 8, constBlobLen := n 69 8,
-         symbolsLen := n 77 8, symbolsOff := n 85 8, instrOff := n 93 8, instrLen := n 101 8, dictOff := n 109 8,
-         dictLen := n 117 8, reserved := n 125 4 }
+  if bs.length < HEADER_SIZE then none else (readHeaderSeq (bs.take HEADER_SIZE)).map (·.1)
 
 def writeHeader (h : Header) : List Byte :=
   h.magic ++ leBytes 1 h.version ++ leBytes 2 h.mechVer ++ leBytes 2 h.flags ++ leBytes 4 h.regCount ++ leBytes 4 h.instrCount ++
@@ -206,7 +228,7 @@ def load (valid : List Byte → Bool) (bs : List Byte) : Except LErr Loaded :=
                         match readDict db valid db.length 0 with
                         | .error e => .error e
                         | .ok dict =>
-                          match decodeInstrs ib with
+                          match decodeInstrs ib.length ib with
                           | .error e => .error (.instr e)
                           | .ok instrs => .ok ⟨h, features, types, consts, blob, symbols, instrs, dict⟩
 
